@@ -46,7 +46,20 @@ func verifAddr(obj interface{}) uintptr {
 	return v.Pointer()
 }
 
+// verifQuiet switches every hook off. The harness sets it once, before any
+// connection exists, for its free-running runs under the race detector: the
+// hooks' own atomics and mutex would otherwise order the goroutines they are
+// called from and hide races between them.
+var verifQuiet bool
+
+// VerifSetQuiet must be called before any connection is started.
+func VerifSetQuiet(q bool) { verifQuiet = q }
+
 func verifPoolGet(kind uint8, obj interface{}) {
+	if verifQuiet {
+		return
+	}
+
 	t := &verifTracker
 	t.mu.Lock()
 	defer t.mu.Unlock()
@@ -65,6 +78,10 @@ func verifPoolGet(kind uint8, obj interface{}) {
 }
 
 func verifPoolPut(kind uint8, obj interface{}) {
+	if verifQuiet {
+		return
+	}
+
 	t := &verifTracker
 	t.mu.Lock()
 	defer t.mu.Unlock()
@@ -169,6 +186,10 @@ var verifTicks [verifTickCount]int64
 var verifGates [verifTickCount]atomic.Pointer[chan struct{}]
 
 func verifTick(which int) {
+	if verifQuiet {
+		return
+	}
+
 	atomic.AddInt64(&verifTicks[which], 1)
 
 	if g := verifGates[which].Load(); g != nil {
@@ -220,6 +241,10 @@ func VerifTicksReset() {
 var verifGaugeCur, verifGaugeMax [5]int64
 
 func verifGauge(strms, open, closedRing int, recvWindow, sendWindow int64) {
+	if verifQuiet {
+		return
+	}
+
 	vals := [5]int64{int64(strms), int64(open), int64(closedRing), recvWindow, sendWindow}
 	for i, v := range vals {
 		atomic.StoreInt64(&verifGaugeCur[i], v)
